@@ -324,6 +324,11 @@ func effectiveProps(o *Obligation, fprops []string, tier2 bool) []string {
 			}
 			return r
 		case "frame", "frame-inv-entry", "frame-inv-preserved":
+			// what a converter leaves alone: C02 (each field's block touches only its own attribute and
+			// struct field); for CopyFrom also C05 ("fields not described by the schema are left untouched")
+			if strings.HasSuffix(o.Func, "FromTerraform") {
+				return []string{"C02", "C05"}
+			}
 			return []string{"C02"}
 		}
 	}
